@@ -25,6 +25,7 @@ ASSUMPTIONS = [
     'rates(): the per-part jump counters come from the real Jumps.split (its conservation laws are C19); each part is recounted from its own transitions with the parent\'s minimal_residence through the real Transitions.jumps',
     'attempt frequency entering the activation energies is read from the real TrajectoryMetrics',
     'K2 (Transitions.matrix folds no-site events into the last row/column) is tolerated only when every deviating cell is explained by exactly that index wrap',
+    'a site that holds more than one atom on average (occupancy > 1) cannot be represented by the library (pymatgen raises "Species occupancies sum to more than 1"): that loud refusal is accepted; silently reporting other numbers is not',
 ]
 N_CASES = {'quick': 320, 'thorough': 50000}
 BUDGET_S = {'quick': 220, 'thorough': 3600}
@@ -93,6 +94,20 @@ def check_occupancy(tr, sys_, ctx, what, wit):
     T = len(states)
     n = tr.n_sites
     occ = np.array([np.sum(states == i) / T for i in range(n)])
+    if occ.max() > 1 + 1e-12:
+        # several atoms share a site most of the time: its occupancy exceeds 1, which the library refuses loudly
+        # (pymatgen cannot hold such a site); it must not silently report something else
+        try:
+            st = tr.occupancy()
+        except ValueError as exc:
+            ctx.decided()
+            if 'more than 1' in str(exc):
+                ctx.count('occupancy_above_one_refused_loudly')
+                return occ
+            raise
+        got = np.array([site.species.num_atoms for site in st])
+        ctx.check(len(got) == n and np.allclose(got, occ, rtol=1e-12, atol=1e-15), f'{what}: a site holds more than one atom on average (occupancy {occ.max():.3f}); occupancy() neither refused nor reported the atom-frame fractions: {got.tolist()} vs {occ.tolist()}', {**wit, 'got': got, 'want': occ})
+        return occ
     st = tr.occupancy()
     got = np.array([site.species.num_atoms for site in st])
     ctx.check(len(got) == n and np.allclose(got, occ, rtol=1e-12, atol=1e-15), f'{what}: occupancy() != fraction of frames each site holds an atom', {**wit, 'got': got, 'want': occ})
@@ -230,6 +245,16 @@ def check_jumps(tr, j, sys_, occ, ctx, what, wit, rng):
 def run_unit(unit, rng, ctx):
     f = float(rng.choice([1.0, 1.0, 0.5]))
     sys_ = gen.make_site_system(rng, T=int(rng.integers(12, 90)), inner_fraction=f, margin=0.04, p_move=float(rng.choice([0.15, 0.3, 0.5])), n_sites=int(rng.integers(2, 9)))
+    if unit['i'] % 16 == 9 and sys_.n_floating >= 2:
+        # a roomy site: the second diffusing atom sits in the same site as the first one (when that is at a site)
+        inv_ = np.linalg.inv(sys_.matrix)
+        s0 = sys_.states_true[:, 0]
+        at = s0 >= 0
+        jit = (gen.random_unit_vectors(rng, len(s0)) * (0.3 * sys_.inner_fraction * sys_.radii[np.clip(s0, 0, None)])[:, None]) @ inv_
+        sys_.coords[at, 1] = np.mod(sys_.site_frac[s0[at]] + jit[at], 1)
+        sys_.states_true[at, 1] = s0[at]
+        sys_.inner_true[at, 1] = s0[at]
+        ctx.count('systems_with_two_atoms_sharing_a_site')
     what = f'{sys_.kind}{"/rot" if sys_.rotated else ""} sites={len(sys_.site_frac)} labels={sys_.labels} atoms={sys_.n_floating} f={f}'
     wit = {'matrix': sys_.matrix, 'site_frac': sys_.site_frac, 'labels': sys_.labels, 'states': sys_.states_true}
     with warnings.catch_warnings():
@@ -243,6 +268,13 @@ def run_unit(unit, rng, ctx):
                 return
             raise
         check_transitions_matrix(tr, ctx, what, wit)
+        st_ = np.asarray(tr.states)
+        if max((np.sum(st_ == i_) for i_ in range(tr.n_sites)), default=0) > len(st_):
+            # a site holding more than one atom on average: everything that builds on the occupancies is refused
+            # loudly by the library; only the refusal (or correct numbers) is checked here
+            check_occupancy(tr, sys_, ctx, what, wit)
+            ctx.case(signature(st_, sys_.site_frac, sys_.labels), False)
+            return
         occ = check_occupancy(tr, sys_, ctx, what, wit)
         # the same bookkeeping on time parts (objects whose trajectory and state array have other lengths)
         n_ev = len(tr.events)
